@@ -179,6 +179,15 @@ pub const CORPUS: &[&str] = &[
     "SELECT id, age FROM users WHERE city IN ('NY', 'LA') AND age NOT IN (20) AND NOT (score IS NULL) ORDER BY id",
     "SELECT a.id, b.amount FROM users AS a JOIN orders AS b ON a.id = b.user_id ORDER BY a.id, b.amount",
     "SELECT a.id AS uid, b.amount AS amt FROM users AS a JOIN orders AS b ON a.id = b.user_id ORDER BY uid, amt",
+    // the rest of the function table: logarithms of every spelling, trigonometry, constants,
+    // trimming, regular expressions, encodings, dates
+    "SELECT id, log2(age) AS l2, log10(age + 1) AS l10, log(2, age) AS lb FROM users ORDER BY id",
+    "SELECT id, degrees(score) AS d FROM users ORDER BY id",
+    "SELECT id, pi() AS p, age * pi() AS ap FROM users ORDER BY id",
+    "SELECT id, btrim(city, 'N') AS c FROM users ORDER BY id",
+    "SELECT id, regexp_contains(city, 'N.*') AS rc, regexp_extract(city, '(N)(Y)', 0, 1) AS re, regexp_replace(city, 'N', 'M') AS rr FROM users ORDER BY id",
+    "SELECT id, encode(city, 'hex') AS e FROM users ORDER BY id",
+    "SELECT id, decode(city, 'hex') AS d FROM users ORDER BY id",
     // the clock: nothing in a compilation may depend on when (or on which thread) it ran
     "SELECT id, CURRENT_TIMESTAMP AS seen_at FROM users ORDER BY id",
     "SELECT id, CURRENT_DATE AS d, CURRENT_TIME AS t FROM users WHERE age > 20 ORDER BY id",
